@@ -55,8 +55,11 @@ def targets_of(shape, dst):
 class Case:
     """A repository with queues as `add_to_queue` builds them."""
 
-    def __init__(self, shape, dsts):
+    def __init__(self, shape, dsts, stale=False):
+        """stale: every q/<version> of the cascade already exists, in sync with its destination and
+        with no queue-integration branch (the state an earlier merge leaves behind)"""
         self.shape = shape
+        self.stale = bool(stale)
         self.dsts = tuple(dsts)            # destination of PR i+1 (entry order)
         g = self.g = Graph()
         refs = self.refs = {}
@@ -75,6 +78,9 @@ class Case:
         if hotfix:
             refs['hotfix/4.2.17'] = g.commit(root)
             self.tags.append('4.2.17.0')
+        if stale:
+            for name in dest_names(shape):
+                refs['q/' + version_of(name)] = refs[name]
         self.cells = []                    # (pr, dest name) in creation order
         self.commit_of = {}
         for i, dst in enumerate(self.dsts):
@@ -117,6 +123,38 @@ class Case:
             if lst:
                 heads['.'.join(str(x) for x in version)] = lst[0].pr_id
         return (prs, heads)
+
+    def observe(self, statuses, force=False):
+        """Like run_real, but also reads back what the real collection holds: the ordered
+        `_queues` (version -> pull request ids, newest first) and the merge paths of the real cascade.
+        Returns {'queues', 'paths', 'prs', 'heads'} or {'error': ...}."""
+        from bert_e.workflow.gitwaterflow.branches import (BranchCascade, QueueCollection,
+                                                           QueueIntegrationBranch)
+        repo = FakeRepo(self.g, self.refs, self.tags)
+        host = StubHost({self.commit_of[k]: v for k, v in statuses.items()})
+        cascade = BranchCascade()
+        cascade.build(repo)
+        paths = cascade.get_merge_paths()
+        qc = QueueCollection(host, 'pre-merge', paths, force)
+        qc.build(repo)
+        try:
+            qc.validate()
+        except Exception as e:
+            return {'error': type(e).__name__}
+
+        def vs(version):
+            return '.'.join(str(x) for x in version)
+        queues = [(vs(version), [b.pr_id for b in entry[QueueIntegrationBranch]])
+                  for version, entry in qc._queues.items()]
+        prs = list(qc.mergeable_prs)
+        heads = []
+        mq = qc.mergeable_queues
+        for version, _ in qc._queues.items():
+            lst = mq[version][QueueIntegrationBranch]
+            heads.append(lst[0].pr_id if lst else None)
+        return {'queues': queues,
+                'paths': [[vs(b.version_t) for b in path] for path in paths],
+                'prs': prs, 'heads': heads}
 
     # ---------------------------------------------------------------- specification
     def spec(self, statuses, force=False):
